@@ -28,6 +28,8 @@ structure Keys where
   ep : Fin 8 → BB
   black : BB
 
+deriving instance DecidableEq for Except
+
 inductive Err
   | invalidFen | colorsOverlap | typeOverlap | selfNonConsistency | multipleKings | opponentInCheck
   | inconsistentEnPassant | inconsistentCastling | illegalMove | invalidMoveText | invalidPromotion
@@ -439,10 +441,10 @@ def ofBuilder (bb : Builder) : Except Err Board :=
   if popcount (b0.pieces .king &&& b0.colors .black) != 1 then .error .multipleKings else
   let b1 := ((((b0.setSideToMove K bb.stm).setEnPassant K bb.ep).setCastlingRights K .white (bb.rights .white)
             ).setCastlingRights K .black (bb.rights .black))
-  let b2 := (({ b1 with full := bb.full, half := bb.half } : Board).updatePinsAndChecks).updateTerminalStatus K
+  let b2 := ({ b1 with full := bb.full, half := bb.half } : Board).updatePinsAndChecks
   let b3 := { b2 with hash := b2.calcHash K }
   match b3.validate with
-  | none => .ok b3
+  | none => .ok (b3.updateTerminalStatus K)
   | some e => .error e
 
 /-- `From<ChessBoard> for BoardBuilder` -/
